@@ -315,10 +315,20 @@ func (b *builder) accessStructures() {
 		add("{65536,2^32},{255}", []uint64{65536, two32}, []uint64{255})
 		add("{2^63},{2^64-1,1},{2^32}", []uint64{two63}, []uint64{max64, 1}, []uint64{two32})
 		add("with non-maximal and duplicate sets", []uint64{1, 2}, []uint64{1}, []uint64{2, 1}, []uint64{3, 4})
+		// cnf.ConvertToCNF keeps the (map-ordered) enumeration order of the source structure, so the
+		// maximal unqualified sets are collected and sorted here before building the CNF.
 		th, err := mkThreshold(3, 1, 2, 3, 4)
 		if err == nil {
-			v, err := cnf.ConvertToCNF(th)
-			putE(b, "cnf", "ConvertToCNF(3-of-{1,2,3,4})", v, err, eqCNF)
+			var mus [][]uint64
+			for s := range th.MaximalUnqualifiedSetsIter() {
+				var xs []uint64
+				for _, id := range sortedIDs(s) {
+					xs = append(xs, uint64(id))
+				}
+				mus = append(mus, xs)
+			}
+			slices.SortFunc(mus, func(x, y []uint64) int { return slices.Compare(x, y) })
+			add("maximal unqualified sets of 3-of-{1,2,3,4}", mus...)
 		}
 		for i := 0; i < 2*b.reps; i++ {
 			r := b.rng("cnf", i)
